@@ -4,9 +4,11 @@ import BareModel.Gen.Regex
 import BareProofs.C02Lemmas
 
 /-!
-# C02 — expression text parses to the tree the precedence rules dictate (binary-chain core)
+# C02 — expression text parses to the tree the precedence rules dictate
 
-Property theorems (all chains of any length, all operands):
+## Token level: the binary chain (`insR` / `parseChain`, mirror of the spine re-ordering of `_parse_binary_expression`)
+
+All chains of any length, all operands:
 
 * `reorder_is_prec`   the generated table `parser.BINARY_REORDER` is exactly "strictly lower precedence" (8 levels)
 * `chain_flat`        nothing is dropped or re-ordered: the in-order token sequence of the result is the input
@@ -15,6 +17,29 @@ Property theorems (all chains of any length, all operands):
 * `wf_unique`         hence *the* tree is unique: two `WFPrec` trees with the same token sequence are equal
 * `chain_is_the_prec_tree`  the three together
 * `unary_group_are_operands`  unary applications and groups are leaves of the chain (bind tighter / override)
+
+## Text level: `parseExpr` (mirror of `parse_expression`; scanners in `BareModel/ExprScan.lean`, lemmas in `C02Lemmas.lean`)
+
+All texts of any length and nesting depth:
+
+* `regex_sources_pinned`   the 15 token patterns of the working tree are the ones the scanners were written for
+* `parse_uses_chain`       the binary level of the text parser *is* `parseChain` over the operands it scanned, so the chain
+                           theorems apply to what the text parser builds (and the result is the unique `WFPrec` tree)
+* `parse_deep_wf`          every accepted tree is hereditarily precedence-respecting (`HWF`: at every binary node, inside
+                           groups, call arguments and unary operands too)
+* `unary_tighter`, `group_overrides`   a unary operator applies to one unary-level operand; a group is parsed independently
+                           and is a leaf of the enclosing chain
+* `fuel_sufficient`        fuel = text length never runs out (every recursive call is on a strictly shorter text)
+* `reject_is_parser_error` the only failure is 'Syntax error' / 'Unmatched parenthesis' with a column pointing at the start of a
+                           suffix of the text, `1 ≤ column ≤ length + 1`
+* `accept_faithful`        an accepted text is a whitespace-separated spelling of exactly the token sequence of the returned
+                           tree, followed by whitespace only: nothing skipped, invented, dropped or re-ordered
+
+Not proved (stated so nobody reads more into the theorems): *completeness* at text level (every spelling of the token
+sequence of an `HWF` tree is accepted and yields that tree) — it is sampled by the `expr` correspondence stream, whose
+generator knows the intended tree by construction; unique readability of `Lexes` (a backslash in front of a quote
+can be read as an escape or, when nothing closes the string later, as an ordinary character — the scanner follows the
+regex engine's priority, see `strBody`); the scanners' agreement with CPython's `re` (correspondence).
 -/
 
 namespace C02
@@ -29,12 +54,12 @@ theorem binInd {motive : Expr → Prop}
     (binary : ∀ op l r, motive l → motive r → motive (.binary op l r))
     (operand : ∀ e, IsOperand e → motive e) : ∀ e, motive e
   | .binary op l r => binary op l r (binInd binary operand l) (binInd binary operand r)
-  | .number q => operand _ rfl
-  | .string s => operand _ rfl
-  | .variable n => operand _ rfl
-  | .function n a => operand _ rfl
-  | .unary o e => operand _ rfl
-  | .group e => operand _ rfl
+  | .number _ => operand _ rfl
+  | .string _ => operand _ rfl
+  | .variable _ => operand _ rfl
+  | .function _ _ => operand _ rfl
+  | .unary _ _ => operand _ rfl
+  | .group _ => operand _ rfl
 
 /-- specification-shaped insertion (precedence comparison instead of table lookup, one recursion instead of two) -/
 def ins : Expr → BinOp → Expr → Expr
@@ -288,7 +313,7 @@ theorem chain_ins (t : Expr) (op : BinOp) (r : Expr) (hr : IsOperand r) : chain 
   induction t using binInd with
   | binary pl l rr _ ihr =>
     simp only [ins]; split
-    · simp only [chain, ihr, first_build]
+    · simp only [chain, ihr]
       have : first (ins rr op r) = first rr := by
         have := first_build rr [(op, r)]; simpa [build] using this
       simp [this]
@@ -536,7 +561,7 @@ theorem argsLoop_good {pb : List Char → Res (Expr × List Char)} (hpb : ∀ t 
             refine ⟨a :: more, pre1 ++ pre2, by simp [has], by rw [ht1, hnt]; simp, ?_, ⟨⟨hwf, hia⟩, hinn⟩⟩
             have := hseg1.append hseg2
             simpa [argTail, hargs, toksArgs] using this
-          · simp only [hargs, if_false] at hsep
+          · simp only [hargs] at hsep
             obtain ⟨ws, body, ht, hws, hsp⟩ := scanComma_spec hsep
             refine ⟨a :: more, (ws ++ body) ++ (pre1 ++ pre2), by simp [has], by rw [ht, ht1, hnt]; simp, ?_, ⟨⟨hwf, hia⟩, hinn⟩⟩
             have := (Seg.single hws hsp).append (hseg1.append hseg2)
@@ -642,8 +667,7 @@ theorem parseUnary_good : ∀ (fuel : Nat) (t : List Char) (e : Expr) (r : List 
             refine ⟨⟨(ws ++ (name ++ (ws2 ++ ['(']))) ++ pre, by rw [ht, hat]; simp, ?_⟩, rfl, hinn⟩
             have := (Seg.single hws (Spell.call name ws2 hid hlen hws2)).append hseg
             simpa [toks, argTail] using this
-        · rename_i hun _
-          exact parseAtom_good t e r hun h
+        · exact parseAtom_good t e r (by assumption) h
 
 
 /-! ### failures: where they point, what they say, and that fuel never runs out -/
@@ -782,7 +806,7 @@ theorem argsLoop_err {pb : List Char → Res (Expr × List Char)} {k : Nat} (hok
           by_cases hargs : args.isEmpty
           · simp only [hargs, if_true, Option.some.injEq] at hsep
             subst hsep; exact ⟨List.suffix_refl _, Nat.le_refl _⟩
-          · simp only [hargs, if_false] at hsep
+          · simp only [hargs] at hsep
             obtain ⟨ws, body, ht, _, hsp⟩ := scanComma_spec hsep
             have := consumed ht hsp.ne_nil
             exact ⟨this.1, by omega⟩
